@@ -353,10 +353,8 @@ func fieldReset(r *ev.Run, thorough bool) {
 				continue // v2: metric of an absent group
 			}
 			en := lib.EnumOf(sd.ver, m.Name)
-			vals := []int{en.Unknown}
-			if thorough {
-				vals = append(vals, -1, en.MaxEnum+1, 1<<30)
-			}
+			vals := []int{en.Unknown, -1, en.MaxEnum + 1, 1 << 30, en.Consts[0] + 1<<8, en.Consts[0] + 1<<32, en.Consts[0] - 1<<32}
+			_ = thorough
 			for _, bad := range vals {
 				obj, err, _ := lib.DecodeNew(sd.ver, sd.level, sd.s)
 				if err != nil || obj == nil {
